@@ -48,6 +48,32 @@ func checkGuardedBy(p *Prog, r *Report, gs *guardSpec, rulePrefix string, scope 
 				fmt.Sprintf("access needs %s on %s but only %s is held on some path (calling context: entered with {%s})", modeName[a.Need], a.Lock, modeName[a.Held], a.Entry))
 		}
 	}
+	// no try-lock on a guarded lock: an operation that gives up (or takes another path) when the lock is busy does not
+	// behave like one of the sequential executions
+	for _, f := range p.RepoFns {
+		k := fnKey(f)
+		if !inScope(k) {
+			continue
+		}
+		eachInstr(f, func(in ssa.Instruction) {
+			c := callOf(in)
+			if c == nil {
+				return
+			}
+			n := calleeName(c)
+			if strings.HasSuffix(n, ").TryLock") || strings.HasSuffix(n, ").TryRLock") {
+				if len(c.Args) > 0 {
+					if tn, fn, _, ok := fieldOf(c.Args[0]); ok {
+						for _, l := range gs.Guarded {
+							if l == tn+"."+fn {
+								r.Violation(rulePrefix+".trylock", k+": "+n+" on "+l, p.instrPos(in), "the operation does not wait for the lock: when another operation holds it, this one is skipped or takes a different path, which no sequential order of the operations produces")
+							}
+						}
+					}
+				}
+			}
+		})
+	}
 	// balanced: every exit of a function leaves the lockset as it found it
 	imbFns := map[string]bool{}
 	for _, m := range imb {
